@@ -90,7 +90,7 @@ class P(Prop):
             # history: further status settings on the SAME system object; "reuse" = the caller mutates
             # the array it passed before in place and passes it again (same series length)
             if breakers and rng.random() < 0.35:
-                for _ in range(rng.randint(1, 2)):
+                for _ in range(rng.randint(1, 3)):
                     reuse = rng.random() < 0.5
                     T2 = len(sts) if reuse else rng.randint(1, 8)
                     base = case["later"][-1]["sts"] if (case["later"] and len(case["later"][-1]["sts"]) == T2) else (sts if len(sts) == T2 else None)
@@ -102,7 +102,12 @@ class P(Prop):
                                 sts2[t][j0] = not sts2[t][j0]
                     else:
                         sts2 = [[rng.random() < 0.6 for _ in breakers] for _ in range(T2)]
-                    case["later"].append({"sts": sts2, "reuse": reuse})
+                    # the same matrix as an earlier setting again (A, B, A), each setting through its own setter
+                    earlier = [sts] + [l["sts"] for l in case["later"]]
+                    if len(earlier) >= 2 and rng.random() < 0.4:
+                        sts2 = [list(r) for r in rng.choice(earlier[:-1])]
+                        reuse = False
+                    case["later"].append({"sts": sts2, "reuse": reuse, "setter": rng.choice(["all", "each", None])})
             out.append(case)
         if tier == "thorough" and not override:
             out += self.exhaustive_small()
@@ -133,8 +138,8 @@ class P(Prop):
                     "maps": [[int(m[x]) for x in swbs] for m in s.switchboard2bus],
                     "nobus": [int(x) for x in s.no_bus]}
 
-        def apply(s, arr):
-            if case["setter"] == "all":
+        def apply(s, arr, setter=None):
+            if (setter or case["setter"]) == "all":
                 s.set_bus_tie_status_all(arr)
             else:
                 s.set_bus_tie_status([(j + 1, arr[:, j]) for j in range(len(brk))])
@@ -152,7 +157,7 @@ class P(Prop):
                         arr[:, :] = new      # the caller edits its own buffer in place ...
                     else:
                         arr = new
-                    apply(s, arr)            # ... and hands it over again
+                    apply(s, arr, lt.get("setter"))            # ... and hands it over again
                     steps.append(snap(s))
             else:
                 steps.append(snap(s))
